@@ -1,8 +1,10 @@
 """C10 - preprocessing applies the documented steps in order; windows tile the record.
 
-O-fp  (direct SMT, QF_BVFP binary64, regenerated from the AST of TimeSeries.split at every run): for every integer sampling
-      rate fs and every window length w that is an exact multiple m of the time step (w*fs == m exactly, dt = 1/fs as the
-      readers compute it) the number of sample intervals the code computes equals m; and int(N / k) == floor(N / k).
+O-fp  (direct SMT, QF_BVFP binary64, regenerated from the AST of TimeSeries.split at every run - the statements up to the
+      assignment of samples_per_window are interpreted, if/else included): for every integer sampling rate fs and every window
+      length w that is an exact multiple m of the time step (w*fs == m exactly, dt = 1/fs as the readers compute it) the number of
+      sample intervals the code computes equals m; for every w with m <= w*fs <= m + 1 - 2^-16 it equals m (whole intervals);
+      and int(N / k) == floor(N / k).
 O-sym (SYMX, symbolic samples, concrete k per instance): window j is exactly x[j*k : j*k+k+1] (same terms), windows share their
       boundary sample, all three components are split alike, count / discarded tail / one-sample-short final window / error for
       a window longer than the record; the windows own their storage;
@@ -26,8 +28,8 @@ STUBS = ["scipy.signal.butter/sosfiltfilt -> opaque operator: output sample j = 
 ASSUMPTIONS = ["O-fp: sampling rate is an integer number of Hz and dt = 1/fs in binary64 (as the readers compute it); w*fs == m exactly",
                "O-sym: floats as reals; window lengths chosen so that the sample count is exact in binary (k*0.5 s at dt = 0.5 s)"]
 OUTSIDE = ["the Butterworth design and its edge effects (scipy)", "sampling rates that are not integers", "fs, m beyond the bit widths decided"]
-BOUNDS = {"quick": {"fs_bits": 8, "m_bits": 8, "N_bits": 12, "k_bits": 6, "samples": "5-9", "k": "1-4"},
-          "thorough": {"fs_bits": 10, "m_bits": 12, "N_bits": 14, "k_bits": 8, "samples": "5-13", "k": "1-6"}}
+BOUNDS = {"quick": {"fs_bits": 8, "m_bits": 8, "floor_bits": 6, "N_bits": 12, "k_bits": 6, "samples": "5-9", "k": "1-4"},
+          "thorough": {"fs_bits": 10, "m_bits": 12, "floor_bits": 8, "N_bits": 14, "k_bits": 8, "samples": "5-13", "k": "1-6"}}
 INSTANCE_TIMEOUT = {"quick": 280, "thorough": 1700}
 DT = 0.5
 _L = None
@@ -46,6 +48,7 @@ def functions_encoded():
 
 def instances(tier):
     out = [{"name": "fp_split_count", "func": "run_fp_count", "kwargs": {}, "timeout": 290 if tier == "quick" else 1700},
+           {"name": "fp_split_floor", "func": "run_fp_count", "kwargs": {"which": "floor"}, "timeout": 290 if tier == "quick" else 1700},
            {"name": "fp_window_count", "func": "run_fp_nwin", "kwargs": {}, "timeout": 290 if tier == "quick" else 1700}]
     ns = [5, 6, 8, 9] if tier == "quick" else [5, 6, 7, 8, 9, 10, 12, 13]
     ks = [1, 2, 3, 4] if tier == "quick" else [1, 2, 3, 4, 5, 6]
@@ -60,10 +63,17 @@ def instances(tier):
 
 
 # ----------------------------------------------------------------------------- O-fp
-def run_fp_count(rep, tier):
+def run_fp_count(rep, tier, which="exact"):
     from smt import fp_split as F
     b = BOUNDS[tier]
-    cs, vs, src = F.split_count_query(b["fs_bits"], b["m_bits"])
+    try:
+        cs, vs, src = (F.split_count_query if which == "exact" else F.split_floor_query)(b["fs_bits"] if which == "exact" else b["floor_bits"], b["m_bits"] if which == "exact" else b["floor_bits"])
+    except F.Untranslatable as e:
+        rep.paths += 1
+        rep.completed += 1
+        rep.obligations += 1
+        rep.inconclusive.append(f"the sample-count computation of TimeSeries.split could not be encoded bit-precisely ({e}); not decided")
+        return
     r = F.solve_both(cs, 270 if tier == "quick" else 1600, want_model=vs)
     rep.paths += 1
     rep.completed += 1
@@ -83,8 +93,9 @@ def run_fp_count(rep, tier):
             rep.inconclusive.append(f"reachability of the split-count query: {r2['verdict']}")
     elif r["verdict"] == "sat" and r["model"]:
         md = r["model"]
-        rep.candidate({"kind": "fp_count", "fs": md["fs"], "w": md["w"], "m": md["m"], "k_model": md["k"]},
-                      f"a window of {md['w']} s at {md['fs']} Hz ({md['m']} sample intervals) is computed as {md['k']} intervals", key="window-sample-count-truncated")
+        rep.candidate({"kind": "fp_count", "which": which, "fs": md["fs"], "w": md["w"], "m": md["m"], "k_model": md["k"]},
+                      f"a window of {md['w']} s at {md['fs']} Hz holds {md['m']} whole sample intervals but the code computes another count",
+                      key="window-sample-count")
     else:
         rep.inconclusive.append(f"split sample count: {r['verdict']} (z3 {r['z3']}, cvc5 {r['cvc5']})")
 
@@ -237,14 +248,18 @@ def replay(spec):
     from scipy.signal import butter, sosfiltfilt, detrend as sp_detrend
     if spec["kind"] == "fp_count":
         fs, w, m = spec["fs"], float(spec["w"]), spec["m"]
-        if abs(w * fs - m) > 0:
+        from fractions import Fraction
+        exact = Fraction(w) * fs
+        if spec.get("which", "exact") == "exact" and exact != m:
             return {"reproduced": False, "detail": f"witness does not satisfy w*fs == m exactly ({w}*{fs} vs {m})"}
+        if spec.get("which") == "floor" and not (m <= exact <= m + 1 - Fraction(1, 65536)):
+            return {"reproduced": False, "detail": f"witness outside m <= w*fs <= m+1-2^-16 ({float(exact)} vs {m})"}
         ts = hvsrpy.TimeSeries(np.arange(float(3 * m + 5)), 1 / fs)
         wins = ts.split(w)
         k = wins[0].n_samples - 1
         if k != m:
-            return {"reproduced": True, "key": "window-sample-count-truncated",
-                    "detail": f"split({w} s) at {fs} Hz gives windows of {k} sample intervals; {w} s is exactly {m} intervals of 1/{fs} s"}
+            return {"reproduced": True, "key": "window-sample-count-truncated" if k < m else "window-sample-count-too-large",
+                    "detail": f"split({w} s) at {fs} Hz gives windows of {k} sample intervals; {w} s holds {float(exact):.6f} i.e. {m} whole intervals of 1/{fs} s"}
         return {"reproduced": False, "detail": f"k = {k} = m"}
     if spec["kind"] == "fp_nwin":
         N, k = spec["N"], spec["k"]
